@@ -23,7 +23,8 @@ func init() {
 			"R14.5 comment slices placed in tokens are fresh copies (or the lexer-side buffer is replaced before reuse); " +
 			"R14.6 the source-map switch (generateSourceMap / CodeWriter.Mapper) controls nothing but calls into package sourcemap, and no sourcemap value flows into the code; " +
 			"R14.7 debug.ToString prints with a zero-valued writer and the compact Compile path differs from it only in pretty-only fields (every read of the indentation/semicolon fields and every non-empty store of the pending buffer is reachable only with PrettyPrint true; the post-pass runs only under prettyPrint); " +
-			"R14.8 no map range with an order-sensitive body, no nondeterminism/unsafe/reflect imports, no goroutines/channels inside the library. " +
+			"R14.8 no map range with an order-sensitive body, no nondeterminism/unsafe/reflect imports, no goroutines/channels inside the library; " +
+			"R14.9 the compiler's fluent configuration methods never load a field of their receiver: what they establish does not depend on the order of earlier configurations. " +
 			"Together these imply that jobs on distinct instances — and compilations of a shared tree/compiler — touch disjoint mutable memory, so every interleaving is race-free and each job computes what it computes alone. " +
 			"A pass means every enumerated obligation was discharged; it does not observe any execution or schedule.",
 		notDecided: []string{"races inside user-supplied interceptors / operator constructors", "sharing one Parser or one Lexer between goroutines (not promised)", "equality of results as a runtime comparison", "debug.Print (spew, writes to stdout)"},
@@ -40,6 +41,50 @@ func runC14(c *Ctx) {
 	r14_6(c)
 	r14_7(c)
 	r14_8(c)
+	r14_9(c)
+}
+
+// R14.9: what a configuration method of the compiler establishes does not depend on what was configured before.
+// "In any order of configurations" includes reconfiguring one shared Compiler: `WithPrettyPrint(tabs)` followed by
+// `WithPrettyPrint()` must give the default pretty configuration, as on a fresh compiler. Decided structurally: a
+// method of *Compiler that returns the receiver (the fluent configuration methods) never loads a field of the
+// receiver — it only stores, or hands out the address of a field it has just reset.
+func r14_9(c *Ctx) {
+	c.rule("R14.9", "the compiler's fluent configuration methods establish their configuration without reading the previous one (no load of a receiver field)")
+	c.floor(2)
+	n := 0
+	for _, f := range c.libFunctions("compiler") {
+		if f.Parent() != nil || f.Signature.Recv() == nil || !namedIs(f.Signature.Recv().Type(), "compiler", "Compiler") || f.Signature.Results().Len() != 1 {
+			continue
+		}
+		if !namedIs(f.Signature.Results().At(0).Type(), "compiler", "Compiler") {
+			continue
+		}
+		if _, isPtr := f.Signature.Results().At(0).Type().(*types.Pointer); !isPtr {
+			continue
+		}
+		n++
+		var loads []*ssa.UnOp
+		allInstrs(f, func(_ *ssa.BasicBlock, _ int, in ssa.Instruction) {
+			u, ok := in.(*ssa.UnOp)
+			if !ok || u.Op != token.MUL {
+				return
+			}
+			if root, path := fieldPath(u.X); len(path) > 0 && len(f.Params) > 0 && root == ssa.Value(f.Params[0]) {
+				loads = append(loads, u)
+			}
+		})
+		key := fnName(f) + ": does not read the previous configuration"
+		if len(loads) == 0 {
+			c.ok(key, f.Pos(), "stores only")
+			continue
+		}
+		_, path := fieldPath(loads[0].X)
+		c.bad(key, loads[0].Pos(), "the configuration method reads the receiver's field %s: what it establishes depends on what was configured before, so one shared compiler configured twice differs from a fresh one configured once (results depend on the order of configurations)", pathString("Compiler", path))
+	}
+	if n == 0 {
+		c.unres("configuration methods", token.NoPos, "no method of *compiler.Compiler returns the receiver type")
+	}
 }
 
 // ---------------------------------------------------------------------------------------------
